@@ -5,7 +5,7 @@ property statements, not from the code.  Every function is pure and total and
 is *also* translated into SMT by pyvc (see pyvc/specs.py), so it is written in
 the small expression subset the translator accepts.
 """
-from pyvc.specs import spec, opaque
+from pyvc.dsl import spec, opaque
 
 
 # ----------------------------------------------------------------- integers
@@ -312,7 +312,7 @@ def shr7(z: int, shift: int) -> int:
 
 
 # ------------------------------------------------------ assumed facts (axioms)
-from pyvc.specs import axiom
+from pyvc.dsl import axiom
 from pyvc.contracts import implies
 
 
